@@ -35,20 +35,66 @@ def f(t):
     return (And if k=="&" else Or)(f(t[1]), f(t[2]))
 spec=json.load(open(sys.argv[2]))
 sig=spec["sig"]
-o=PreOCF.load_ocf(spec["path"], trusted=True)
 def oc(fn):
     try:
         return fn()
     except Exception as e:
         return "EXC:" + type(e).__name__
-out={"sig": list(o.signature), "cached": [[w, o.ranks[w]] for w in o.ranks], "kind": o.ranking_system, "impacts": getattr(o, "_impacts", None)}
-out["is_ocf"]=oc(lambda: bool(o.is_ocf()))
+# "qfirst": the query conditionals are built before the file is read and asked before anything else is computed
+qs0=[Conditional(f(b), f(a), "q") for (b,a) in spec["queries"]] if spec.get("qfirst") else []
+o=PreOCF.load_ocf(spec["path"], trusted=True)
+cached0=[[w, o.ranks[w]] for w in o.ranks]
+isocf0=oc(lambda: bool(o.is_ocf()))
+accept0=[oc(lambda: bool(o.conditional_acceptance(c))) for c in qs0]
+out={"accept0": accept0, "sig": list(o.signature), "cached": cached0, "kind": o.ranking_system, "impacts": getattr(o, "_impacts", None)}
+out["is_ocf"]=isocf0
 out["lazy"]=[oc(lambda: o.rank_world(w)) for w in spec["lazy"]]
 out["accept"]=[oc(lambda: bool(o.conditional_acceptance(Conditional(f(b), f(a), "q")))) for (b,a) in spec["queries"]]
 out["franks"]=[oc(lambda: o.formula_rank(f(a))) for (b,a) in spec["queries"]]
 out["all"]=oc(lambda: [[w, int(x)] for w, x in o.compute_all_ranks().items()])
 print(json.dumps(out))
 '''
+
+# the saving side of a cross-interpreter round trip: the belief base is built, partially ranked and saved by an interpreter
+# of its own, so that the formula objects in the file carry that interpreter's bookkeeping (pysmt node ids), not the reader's
+PRODUCER = r'''
+import sys, json, warnings
+warnings.filterwarnings("ignore")
+sys.path.insert(0, sys.argv[1])
+from inference.preocf import PreOCF, RandomMinCRepPreOCF
+from inference.belief_base import BeliefBase
+from inference.conditional import Conditional
+from pysmt.shortcuts import Symbol, And, Or, Not, TRUE, FALSE
+def f(t):
+    k=t[0]
+    if k=="T": return TRUE()
+    if k=="F": return FALSE()
+    if k=="v": return Symbol(sig[t[1]])
+    if k=="!": return Not(f(t[1]))
+    return (And if k=="&" else Or)(f(t[1]), f(t[2]))
+spec=json.load(open(sys.argv[2]))
+sig=spec["sig"]
+conds={}
+for (k,b,a) in spec["base"]:
+    conds[k]=Conditional(f(b), f(a), "(c%d)" % k)
+bb=BeliefBase(list(sig), conds, "bb")
+if spec["kind"]=="system-z": o=PreOCF.init_system_z(bb)
+elif spec["kind"]=="c-rep": o=RandomMinCRepPreOCF.init_with_impacts_list(bb, list(spec["impacts"]))
+else: o=PreOCF.init_custom(dict(spec["ranks"]), bb, list(sig))
+for w in spec["pre"]:
+    o.rank_world(w)
+o.save_ocf(spec["path"])
+print(json.dumps({"cached": [[w, o.ranks[w]] for w in o.ranks]}))
+'''
+
+
+def rot(t, n):
+    """the formula with every atom replaced by the next one of the signature (same shape, other meaning)"""
+    if t[0] == "v":
+        return ("v", (t[1] + 1) % n)
+    if t[0] in ("T", "F"):
+        return tuple(t)
+    return (t[0],) + tuple(rot(x, n) for x in t[1:])
 
 
 def bits(w):
@@ -168,6 +214,41 @@ def _worker(case):
                 if fr["sig"] != list(sig) or fr["lazy"] != lazy_o or fr["accept"] != out["accept_o"] or fr["all"] != all_o or fr["franks"] != franks_o or fr["is_ocf"] != isocf_o or fr["cached"] != cached_before \
                         or (case["kind"] == "c-rep" and fr["impacts"] != list(ocf._impacts)):
                     out["problems"].append("fresh interpreter differs: %s" % fr)
+        # ---- saved by one fresh interpreter, read by another one that has already built conditionals of its own
+        #      (the base's conditionals over rotated atoms, built in the same order and asked first)
+        if case["fresh"] and not derived:
+            nat = len(sig)
+            shadow = [(rot(b, nat), rot(a, nat)) for (_k, b, a) in case["base"]]
+            xq = shadow + [tuple(q) for q in case["queries"]]
+            xqs = [Conditional(common.to_pysmt(b, sig), common.to_pysmt(a, sig), "q") for (b, a) in xq]
+            xacc = [oc(lambda: bool(ocf.conditional_acceptance(c))) for c in xqs]
+            xfr = [oc(lambda: ocf.formula_rank(c.antecedence)) for c in xqs]
+            p3 = os.path.join(tmp, "obj3.pkl")
+            pspec = {"sig": list(sig), "path": p3, "base": case["base"], "kind": case["kind"], "pre": case["pre"],
+                     "impacts": list(getattr(ocf, "_impacts", None) or []), "ranks": case.get("ranks")}
+            psp = os.path.join(tmp, "pspec.json")
+            json.dump(pspec, open(psp, "w"))
+            psc = os.path.join(tmp, "producer.py")
+            open(psc, "w").write(PRODUCER)
+            env = dict(os.environ, PYTHONPATH=common.REPO, INFOCF_LOGLEVEL="ERROR", PYTHONHASHSEED="0")
+            r = subprocess.run(["/venv/bin/python", psc, common.REPO, psp], capture_output=True, text=True, env=env, timeout=300)
+            if r.returncode != 0:
+                out["problems"].append("saving interpreter failed: " + r.stderr[-300:])
+            else:
+                spec = {"sig": list(sig), "path": p3, "lazy": case["lazy"], "queries": xq, "qfirst": True}
+                sp = os.path.join(tmp, "spec3.json")
+                json.dump(spec, open(sp, "w"))
+                sc = os.path.join(tmp, "fresh.py")
+                open(sc, "w").write(FRESH)
+                r = subprocess.run(["/venv/bin/python", sc, common.REPO, sp], capture_output=True, text=True, env=env, timeout=300)
+                if r.returncode != 0:
+                    out["problems"].append("reading interpreter failed: " + r.stderr[-300:])
+                else:
+                    fr = json.loads(r.stdout.strip().splitlines()[-1])
+                    want = {"sig": list(sig), "accept0": xacc, "lazy": lazy_o, "accept": xacc, "all": all_o, "franks": xfr, "is_ocf": isocf_o, "cached": cached_before}
+                    diff = ["%s: read %s, original %s" % (k, fr[k], v) for k, v in want.items() if fr[k] != v]
+                    if diff:
+                        out["problems"].append("saved by one interpreter, read by another (queries first): " + "; ".join(diff))
         # ---- metadata round trips: every (file name, fmt) combination
         meta = {"a": [1, 2, {"b": None}], "s": "x", "n": 3}
         for name, fmt in (("m.json", "json"), ("m.JSON", "json"), ("m.pkl", "pickle"), ("m.PKL", "json"), ("m.pickle", "json"), ("m.txt", "json"), ("m.txt", "pickle"), ("m", "json"), ("m.meta", "pickle")):
